@@ -281,3 +281,54 @@ def np_argsort(ex, e, st):
                 rank = rank + z3.If(z3.And(inr[j], v.at(j) < v.at(i)), 1, 0)
         st.assume(z3.Implies(inr[i], out.arr[rank] == i))
     return out
+
+
+# ------------------------------------------------------------------------------------------------ numpy.random (global generator), C18
+def rng_state(ex, st):
+    if "__rng__" not in st.env:
+        st.env["__rng__"] = fresh("ambient_rng", specz3.RNG)          # whatever state earlier calls left behind
+    return st.env["__rng__"]
+
+
+def random_method(ex, e, st, attr):
+    ex.trusted_used.add("numpy.random.seed / shuffle: the global generator is a deterministic state machine (seed fixes the state; shuffle(x) "
+                        "permutes x in place as a function of the state and advances it)")
+    if attr == "seed":
+        v = ex.ev(e.args[0], st) if e.args else NONE
+        if isinstance(v, NoneV):
+            st.env["__rng__"] = fresh("entropy_rng", specz3.RNG)
+        else:
+            st.env["__rng__"] = specz3.rng_seeded(toint(v))
+        return NONE
+    if attr == "shuffle":
+        if not (len(e.args) == 1 and isinstance(e.args[0], ast.Name)):
+            raise U("shuffle of something that is not a plain variable")
+        name = e.args[0].id
+        x = st.env.get(name)
+        if not isinstance(x, Seq):
+            raise U("shuffle of a non-array")
+        state = rng_state(ex, st)
+        n = lit(x.n)
+        if n != 4 or x.delta != 0 or lit(x.start) != 0:
+            raise U("shuffle of an array that is not a 4-entry row")
+        new_arr = specz3.rng_shuffle(state, x.arr[0], x.arr[1], x.arr[2], x.arr[3])
+        # a permutation of the old entries: same multiset (for <= 8 entries: every value occurs equally often)
+        for a in range(n):
+            va = x.arr[a]
+            st.assume(sum([z3.If(new_arr[b] == va, 1, 0) for b in range(n)]) == sum([z3.If(x.arr[b] == va, 1, 0) for b in range(n)]))
+        st.env["__rng__"] = specz3.rng_next(state)
+        row_of = getattr(x, "row_of", None)
+        if row_of is not None:                       # x is a VIEW of a matrix row: the write reaches the matrix
+            mat, r = row_of
+            owner = [k for k, v in st.env.items() if v is mat]
+            if len(owner) != 1:
+                raise U("shuffle through a view whose base cannot be identified")
+            ex.frame_store(st, owner[0], e.lineno)
+            newm = mat.store_row(r, new_arr)
+            st.env[owner[0]] = newm
+            st.env[name] = newm.row(r)
+        else:
+            ex.frame_store(st, name, e.lineno)
+            st.env[name] = Seq(x.kind, x.elem, new_arr, x.n, dtype=x.dtype)
+        return NONE
+    raise U(f"random.{attr}")
